@@ -592,6 +592,11 @@ func init() {
 	})
 
 	// ---- time ----
+	reg("time.Now", func(in *Interp, fr *frame, a []Value) Value {
+		return in.zero(fr.fn.Signature.Results().At(0).Type()) // real time only feeds metrics; clocks that matter are harness stubs
+	})
+	reg("time.Since", func(in *Interp, fr *frame, a []Value) Value { return in.ts.Const(64, 0) })
+	reg("time.Until", func(in *Interp, fr *frame, a []Value) Value { return in.ts.Const(64, 0) })
 	reg("time.Sleep", func(in *Interp, fr *frame, a []Value) Value { in.schedPoint("sleep"); return nil })
 
 	// ---- runtime-ish ----
